@@ -5,7 +5,7 @@
 ID=$1; PROP=$2; TIER=${3:-quick}
 WT=${VERIF_MUT_WT:-/tmp/wt_mut}
 cd $WT || exit 2
-git checkout -q -- . && git checkout -q --detach $(git -C /repo rev-parse HEAD) && git apply /verif/seeded/$ID/patch.diff || { echo "patch does not apply"; exit 2; }
+git checkout -q -- . && git checkout -q --detach $(git -C /repo rev-parse HEAD) && git apply $( [ -f /verif/seeded/$ID/patch_head.diff ] && echo /verif/seeded/$ID/patch_head.diff || echo /verif/seeded/$ID/patch.diff ) || { echo "patch does not apply"; exit 2; }
 OUT=/tmp/mut_${ID}_${PROP}
 mkdir -p $OUT
 (cd /verif && VERIF_REPO=$WT VERIF_EVIDENCE_DIR=$OUT VERIF_REPLAY_DIR=$OUT/replays timeout 3000 ./check $PROP --tier $TIER > $OUT/log 2>&1); RC=$?
